@@ -7,8 +7,10 @@
    first-order pump gain; agreement between the perturbative and numerical methods, perturbative orders
    2-4 and the iterative co/counter algorithm are compared numerically by harness/c05.py only (labelled
    as tests in the evidence). *)
-From Coq Require Import QArith Qminmax Reals Permutation SetoidList Sorted Qreals Ranalysis1.
+From Coq Require Import QArith Qminmax Reals Permutation SetoidList Sorted Qreals Ranalysis1 Lra.
 From Verif Require Import Prelude Model.Fiber Proofs.Fiber Proofs.FiberR.
+(* no Import: Num's '#' notation would clash with Q's; names from these modules are written qualified *)
+From Verif Require Num Model.Raman Proofs.Raman.
 
 (* ================================================================================================
    Raman off — loss budget *)
@@ -185,6 +187,102 @@ Proof. exact Proofs.FiberR.pump_gain_nonneg_order1. Qed.
 Print Assumptions pump_gain_nonneg.
 
 (* ================================================================================================
+   Raman on — perturbative solver (Model/Raman.v at NumR; the NumF instance of the same terms is what the
+   correspondence run executes against RamanSolver, orders 0-4) *)
+Open Scope R_scope.
+Notation pertR := (@Raman.pert_profile Num.NumR).
+
+(* order 1, low power: the exponent applied to wave j over a distance z differs from -alpha_j z by at most
+   max|cr| * (total launch power) * z *)
+Theorem pert1_low_power : forall C z alpha cr p0, 0 <= C -> 0 <= z ->
+  Forall (fun a => 0 < a) alpha -> Forall (Forall (fun c => Rabs c <= C)) cr ->
+  forall j x a, nth_error (Proofs.Raman.exponent1 alpha cr p0 z) j = Some x -> nth_error alpha j = Some a ->
+  Rabs (x + a * z) <= C * Proofs.Raman.sumabs p0 * z.
+Proof. exact Proofs.Raman.pert1_low_power. Qed.
+Print Assumptions pert1_low_power.
+
+(* exponent1 is what the order-1 solver applies at a grid point of the current segment *)
+Theorem pert1_exponent_is_model : forall alpha cr st z,
+  fst (@Raman.pert_point Num.NumR 1 alpha cr st z) =
+  @Raman.vmap2 Num.NumR (fun p x => p * exp x) (Raman.ps_p0 st)
+               (Proofs.Raman.exponent1 alpha cr (Raman.ps_p0 st) (z - Raman.ps_z0 st)).
+Proof. exact Proofs.Raman.pert_point_order1. Qed.
+Print Assumptions pert1_exponent_is_model.
+
+(* zero coupling: the whole perturbative profile is p * (lumped losses passed so far, each once) * exp(-alpha z) *)
+Theorem pert1_zero_coupling : forall (alpha p : list R) (cr : list (list R)) (grid : list (R * R)),
+  Forall (Forall (eq 0)) cr -> length cr = length alpha -> length p = length alpha ->
+  pertR 1%Z alpha cr grid p = Proofs.Raman.pert_closed alpha p grid 1.
+Proof. exact Proofs.Raman.pert1_zero_coupling. Qed.
+Print Assumptions pert1_zero_coupling.
+
+Theorem pert1_lumped_once : forall (alpha p : list R) (cr : list (list R)) (g : list (R * R)) (z ll : R),
+  Forall (Forall (eq 0)) cr -> length cr = length alpha -> length p = length alpha ->
+  last (pertR 1%Z alpha cr (g ++ [(z, ll)]) p) [] =
+  @Raman.vmap2 Num.NumR
+     (fun pj a => pj * (1 * Proofs.Raman.prod_before_last (map snd (g ++ [(z, ll)]))) * exp (- (a * z))) p alpha.
+Proof. exact Proofs.Raman.pert1_end_value. Qed.
+Print Assumptions pert1_lumped_once.
+
+(* zero-power limit: the Euler scheme and the order-1 perturbative solver reduce to the same budget, up to the
+   discretisation factor r of the Euler scheme, exp(-2 sum (alpha dz)^2) <= r <= 1 *)
+Theorem pert_euler_zero_power_agree : forall (a : Q) (t : list (Q * Q)) z0 l0,
+  let grid := (z0, l0) :: t in
+  Forall (fun dz => 0 <= Q2R a * Q2R dz <= 1 / 2) (grid_dzs grid) ->
+  let L := Q2R (fst (last grid (z0, l0))) - Q2R z0 in
+  let K := Proofs.Raman.prod_before_last (map (fun zl => Q2R (snd zl)) grid) in
+  let xs := map (fun dz => Q2R a * Q2R dz) (grid_dzs grid) in
+  exists r, Q2R (grid_factor a grid) = r * (K * exp (- (Q2R a * L))) /\
+            exp (- 2 * rsum (map (fun x => x * x) xs)) <= r <= 1.
+Proof. exact Proofs.Raman.pert_euler_zero_power_agree. Qed.
+Print Assumptions pert_euler_zero_power_agree.
+
+(* ================================================================================================
+   Raman on — iterative co/counter algorithm: structure of the backward sweep.
+   bwd_sweep consumes rev (dzs z) and rev lumped: the i-th step from the far end uses dz[-i], lumped[-i]. *)
+(* zero coupling: i steps from the far end every counter-propagating wave carries exactly the product of
+   (1 - alpha dz) * lumped over the LAST i steps of the grid (uniform or not), taken in reverse order *)
+Theorem bwd_sweep_zero_coupling : forall nco (alpha : list R) (cr : list (list R)) (cols : list (list R)) (dz ll : list R)
+  (cl : list R) (rest : list (list R)),
+  Forall (Forall (eq 0)) cr -> length cr = length alpha -> (nco <= length alpha)%nat ->
+  rev cols = cl :: rest -> Forall (fun c => length c = length alpha) cols ->
+  map (skipn nco) (@Raman.bwd_sweep Num.NumR nco alpha cr cols dz ll) =
+  rev (map (fun G => @Raman.vmap2 Num.NumR (fun p a => p * G a) (skipn nco cl) (skipn nco alpha))
+           ((fun _ => 1) :: Proofs.Raman.facs (fun _ => 1) rest (rev dz) (rev ll))).
+Proof. exact Proofs.Raman.bwd_sweep_zero_coupling. Qed.
+Print Assumptions bwd_sweep_zero_coupling.
+
+(* the step lengths consumed backwards are those of the grid measured from the far end ... *)
+Theorem bwd_steps_mirror : forall (L : R) (z : list R),
+  @Raman.dzs Num.NumR (map (fun x => L - x) (rev z)) = rev (@Raman.dzs Num.NumR z).
+Proof. exact Proofs.Raman.dzs_mirror. Qed.
+Print Assumptions bwd_steps_mirror.
+
+(* ... each used exactly once *)
+Theorem bwd_steps_once : forall (z : list R), Permutation (rev (@Raman.dzs Num.NumR z)) (@Raman.dzs Num.NumR z).
+Proof. exact Proofs.Raman.bwd_steps_once. Qed.
+Print Assumptions bwd_steps_once.
+
+(* ================================================================================================
+   PMD and PDL of a path (fibres, amplifiers, ROADMs): the model's rational squared accumulators are the
+   squares of the code's sqrt(x**2 + c**2) accumulators *)
+Theorem path_quadrature : forall (cs : list contrib) (a : acc),
+  0 <= Q2R (a_pmd2 a) -> 0 <= Q2R (a_pdl2 a) ->
+  Forall (fun c => 0 <= Q2R (d_pmd2 c) /\ 0 <= Q2R (d_pdl2 c)) cs ->
+  sqrt (Q2R (a_pmd2 (accumulate cs a))) =
+    fold_left (fun acc x => sqrt (acc * acc + x * x)) (map (fun c => sqrt (Q2R (d_pmd2 c))) cs) (sqrt (Q2R (a_pmd2 a))) /\
+  sqrt (Q2R (a_pdl2 (accumulate cs a))) =
+    fold_left (fun acc x => sqrt (acc * acc + x * x)) (map (fun c => sqrt (Q2R (d_pdl2 c))) cs) (sqrt (Q2R (a_pdl2 a))).
+Proof. exact Proofs.Raman.path_quadrature_R. Qed.
+Print Assumptions path_quadrature.
+
+Theorem path_contrib_nonneg : forall pi e f c, elem_contrib pi e f = Ok c ->
+  (forall fib, e = EFiber fib -> (0 <= len_m fib)%Q) ->
+  0 <= Q2R (d_pmd2 c) /\ 0 <= Q2R (d_pdl2 c).
+Proof. exact Proofs.Raman.elem_contrib_nonneg. Qed.
+Print Assumptions path_contrib_nonneg.
+
+(* ================================================================================================
    non-vacuity: the hypotheses are satisfiable on non-trivial values *)
 Open Scope Q_scope.
 Definition ex_fiber : fiber :=
@@ -222,3 +320,29 @@ Example ex_euler_zero :
   nth 0 ex_loss 0 == grid_factor (1 # 20000) ex_grid /\ nth 1 ex_loss 0 == grid_factor (1 # 25000) ex_grid /\
   0 < nth 0 ex_loss 0 /\ nth 0 ex_loss 0 < 7 # 10.
 Proof. split; [vc|]. split; [vc|]. split; vc. Qed.
+
+(* Raman-on theorems instantiated on concrete data (hypotheses satisfiable) *)
+Open Scope R_scope.
+Example ex_pert1_lumped_once :
+  last (pertR 1%Z [1 / 20000; 1 / 25000] [[0; 0]; [0; 0]] ([(0, 1); (25000, 7 / 10); (50000, 1)] ++ [(80000, 1)]) [1 / 1000; 2 / 1000]) [] =
+  @Raman.vmap2 Num.NumR
+     (fun pj a => pj * (1 * Proofs.Raman.prod_before_last (map snd ([(0, 1); (25000, 7 / 10); (50000, 1)] ++ [(80000, 1)]))) * exp (- (a * 80000)))
+     [1 / 1000; 2 / 1000] [1 / 20000; 1 / 25000].
+Proof. apply pert1_lumped_once; repeat constructor. Qed.
+
+Example ex_pert1_low_power : forall j x a,
+  nth_error (Proofs.Raman.exponent1 [1 / 20000; 1 / 25000] [[0; 3 / 10000]; [- (3 / 10000); 0]] [1 / 1000; 2 / 1000] 50000) j = Some x ->
+  nth_error [1 / 20000; 1 / 25000] j = Some a ->
+  Rabs (x + a * 50000) <= 3 / 10000 * Proofs.Raman.sumabs [1 / 1000; 2 / 1000] * 50000.
+Proof.
+  apply pert1_low_power; try lra.
+  - repeat constructor; lra.
+  - repeat constructor; rewrite ?Rabs_R0, ?Rabs_Ropp; try rewrite Rabs_right; lra.
+Qed.
+
+Example ex_bwd_sweep :
+  map (skipn 1) (@Raman.bwd_sweep Num.NumR 1 [1 / 20000; 1 / 25000] [[0; 0]; [0; 0]]
+                    [[1; 5]; [2; 6]; [3; 7]] [10000; 2500] [1; 8 / 10; 1]) =
+  rev (map (fun G => @Raman.vmap2 Num.NumR (fun p a => p * G a) (skipn 1 [3; 7]) (skipn 1 [1 / 20000; 1 / 25000]))
+           ((fun _ => 1) :: Proofs.Raman.facs (fun _ => 1) [[2; 6]; [1; 5]] (rev [10000; 2500]) (rev [1; 8 / 10; 1]))).
+Proof. apply bwd_sweep_zero_coupling with (cl := [3; 7]); repeat constructor. Qed.
